@@ -57,6 +57,7 @@ const (
 	kfC04SchemaCacheAlias = "C04-schema-cache-key-alias"
 	kfC04InvalidUTF8      = "C04-invalid-utf8-stored"
 	kfC04ParquetNilDeref  = "C04-parquet-import-nil-deref"
+	kfC04MsgpackNilKey    = "C04-msgpack-nil-map-key-panic"
 )
 
 const c04BaseMicros = int64(1_700_000_000_000_000)
@@ -434,6 +435,7 @@ func (g *c04Gen) msgpackRows() *c04Req {
 		r.Headers["x-arc-database"] = db
 	}
 	n := rapid.IntRange(1, 3).Draw(t, "nrows")
+	oneM := ""
 	var items []any
 	for i := 0; i < n; i++ {
 		fields := mpMap{}
@@ -451,7 +453,18 @@ func (g *c04Gen) msgpackRows() *c04Req {
 			v, _ := g.value(g.colType(name, "ftype", false), "fval")
 			fields = append(fields, mpPair{name, v})
 		}
-		item := mpMap{{"m", rapid.SampledFrom(c04Measurements).Draw(t, "m")},
+		m := rapid.SampledFrom(c04Measurements).Draw(t, "m")
+		if verifkit.Excluded(kfC04PartialStore) {
+			// rows are grouped and written per measurement: with two measurements a
+			// type clash in one of them is the open partial-store shape
+			if i == 0 {
+				oneM = m
+			} else if m != oneM {
+				verifkit.CountExcluded(kfC04PartialStore)
+				m = oneM
+			}
+		}
+		item := mpMap{{"m", m},
 			{"t", (c04BaseMicros + int64(i)) / 1000}, {"fields", fields}}
 		if rapid.Bool().Draw(t, "tags") {
 			item = append(item, mpPair{"tags", mpMap{{g.colName("tag", false), "tv"}}})
@@ -1388,11 +1401,19 @@ func c04RunSeq(s *c04Seq) *c04Failure {
 		} else if se != "" {
 			// Open finding C04-parquet-import-nil-deref: arrow-go's reader panics on
 			// some corrupt files; only byte-mutated / raw bodies can reach it.
-			if r.Opaque && strings.Contains(r.Path, "/import/parquet") && strings.Contains(se, "pqarrow.(*FileReader)") &&
-				resp.Status == 500 && verifkit.Excluded(kfC04ParquetNilDeref) {
-				verifkit.CountExcluded(kfC04ParquetNilDeref)
+			// Open finding C04-msgpack-nil-map-key-panic: the msgpack library panics on a
+			// map with a nil key; again only byte-mutated / raw bodies reach it.
+			tolerated := ""
+			switch {
+			case strings.Contains(r.Path, "/import/parquet") && strings.Contains(se, "pqarrow.(*FileReader)"):
+				tolerated = kfC04ParquetNilDeref
+			case strings.Contains(r.Path, "/write/msgpack") && strings.Contains(se, "msgpack/v6.(*Decoder).decodeTypedMapN"):
+				tolerated = kfC04MsgpackNilKey
+			}
+			if r.Opaque && tolerated != "" && resp.Status == 500 && verifkit.Excluded(tolerated) {
+				verifkit.CountExcluded(tolerated)
 				if resp.After.Buffered != resp.Before.Buffered {
-					return &c04Failure{"rejected-request-stored-rows", fmt.Sprintf("request #%d (%s) panicked in the parquet reader yet appended rows", i, r.Desc)}
+					return &c04Failure{"rejected-request-stored-rows", fmt.Sprintf("request #%d (%s) panicked in a third-party decoder yet appended rows", i, r.Desc)}
 				}
 				continue
 			}
@@ -1860,4 +1881,24 @@ func TestVerifKF_C04_parquet_import_nil_deref(t *testing.T) {
 		t.Logf("statuses=%v panics=%v crashed=%v", res.statuses, res.panics, res.crashed)
 	}
 	verifkit.KnownFinding(kfC04ParquetNilDeref, rep, what)
+}
+
+// Minimal input candidates: a msgpack map whose key is nil.
+func TestVerifKF_C04_msgpack_nil_map_key(t *testing.T) {
+	rep := false
+	what := ""
+	for _, body := range [][]byte{{0x81, 0xc0, 0x01}, {0x82, 0xc0, 0x6d, 0xa1, 'm', 0xa3, 'c', 'p', 'u'}} {
+		r := &c04Req{Method: "POST", Path: "/api/v1/write/msgpack", Body: body}
+		res, err := c04Play(c04ServerCfg{MaxBufferSize: 100}, []*c04Req{r}, false)
+		if err != nil {
+			t.Logf("play: %v", err)
+			continue
+		}
+		t.Logf("body=%x statuses=%v panics=%v crashed=%v %s", body, res.statuses, res.panics, res.crashed, res.crash)
+		if len(res.panics) > 0 && strings.Contains(res.panics[0], "nil pointer dereference") && !rep {
+			rep = true
+			what = fmt.Sprintf("POST /api/v1/write/msgpack body %x (map with a nil key) -> nil pointer dereference under MessagePackDecoder.Decode, recovered as 500: %s", body, res.panics[0])
+		}
+	}
+	verifkit.KnownFinding(kfC04MsgpackNilKey, rep, what)
 }
